@@ -442,7 +442,7 @@ def search(rng, divergent_cases):
 
 
 PARTS = {
-    "C09": dict(coq_props=["Properties_C09_packed"], files=FILES, rule=RULE, generate=generate,
+    "C09": dict(coq_props=["Properties_C09_packed", "Properties_C09_packed_bytes"], files=FILES, rule=RULE, generate=generate,
                 oracles={"packed_elem": o_elem, "packed_ops": o_ops}, classify=classify, search=search,
                 assumptions=["element counts below 2^31 and below the maximum of the instantiation's length type",
                              "values passed to Set/Insert are below 2^w (the C asserts it)",
